@@ -16,6 +16,7 @@ package main
 
 import (
 	"bytes"
+	"context"
 	"crypto"
 	"crypto/sha256"
 	"crypto/sha512"
@@ -466,6 +467,7 @@ func mtreeShrink(line string) []string {
 
 // runMtreeFS is called from runC05
 func runMtreeFS(cfg Config, rep *Report, m *Model, rng *rand.Rand) {
+	mtreeCLIGlue(cfg, rep)
 	if m.cmd == nil {
 		return
 	}
@@ -560,5 +562,172 @@ func runMtreeFS(cfg Config, rep *Report, m *Model, rng *rand.Rand) {
 		line := "mtree.name s=" + hx([]byte(s))
 		rep.Compare(m, line, implMtreeName, nil)
 		rep.Count(line, true, "mtree.name")
+	}
+}
+
+// ---------------------------------------------------------------------------------------
+// cli.glue: the option plumbing of cmd/desync tar / untar / mtree on the built binary
+
+func mtreeCLIGlue(cfg Config, rep *Report) {
+	bin := desyncBin()
+	if bin == "" {
+		rep.Notes = append(rep.Notes, "cli.glue: no desync binary next to the harness; the option plumbing was not run")
+		return
+	}
+	bad := func(caseLine, what, impl string) {
+		rep.Disagree(Disagreement{Kind: "monitor", Case: caseLine, Impl: clip(impl, 600), What: what})
+	}
+	work, err := os.MkdirTemp(cfg.Work, "cliglue")
+	if err != nil {
+		return
+	}
+	defer os.RemoveAll(work)
+	root := os.Geteuid() == 0
+	src := work + "/tree"
+	os.MkdirAll(src+"/sub dir", 0o750)
+	os.WriteFile(src+"/a", []byte("hello"), 0o600)
+	os.WriteFile(src+"/sub dir/b c", []byte("world!"), 0o640)
+	os.Symlink("a", src+"/l")
+	os.Chmod(src+"/a", 0o600)
+	os.Chmod(src+"/sub dir/b c", 0o4750) // set-uid
+	if root {
+		os.Lchown(src+"/a", 1234, 2345)
+		os.Lchown(src+"/sub dir/b c", 1234, 2345)
+		os.Lchown(src+"/sub dir", 1234, 2345)
+		os.Chmod(src+"/sub dir/b c", 0o4750)
+		syscall.Mknod(src+"/chr", syscall.S_IFCHR|0o600, 1<<8|3)
+		syscall.Mknod(src+"/blk", syscall.S_IFBLK|0o600, 7<<8|0)
+	}
+	mt := time.Unix(1500000000, 123456789)
+	for _, p := range []string{"/a", "/sub dir/b c", "/sub dir", "/chr", "/blk", ""} {
+		os.Chtimes(src+p, mt, mt)
+	}
+	catar := work + "/x.catar"
+	env := []string{}
+	run := func(args ...string) cliResult { return runCLI(bin, env, nil, 60*time.Second, args...) }
+	if r := run("tar", catar, src); r.exit != 0 {
+		bad("cli.glue tar", "desync tar of a small tree failed", r.stderr)
+		return
+	}
+	stat := func(p string) (uid, gid, mode uint32, ok bool) {
+		var st syscall.Stat_t
+		if syscall.Lstat(p, &st) != nil {
+			return 0, 0, 0, false
+		}
+		return st.Uid, st.Gid, st.Mode, true
+	}
+	type want struct {
+		name        string
+		owner, mode bool // as in the archive?
+	}
+	for _, v := range []struct {
+		flags       []string
+		owner, mode bool
+	}{{nil, true, true}, {[]string{"--no-same-owner"}, false, true}, {[]string{"--no-same-permissions"}, true, false},
+		{[]string{"--no-same-owner", "--no-same-permissions"}, false, false}} {
+		dst, _ := os.MkdirTemp(work, "out")
+		caseLine := "cli.glue untar " + strings.Join(v.flags, " ")
+		r := run(append(append([]string{"untar"}, v.flags...), catar, dst)...)
+		rep.Count(caseLine, true, "cli.glue", "cli.glue:untar")
+		if r.exit != 0 {
+			bad(caseLine, "desync untar failed", r.stderr)
+			continue
+		}
+		for _, f := range []string{"/a", "/sub dir/b c"} {
+			su, sg, sm, ok1 := stat(src + f)
+			du, dg, dm, ok2 := stat(dst + f)
+			if !ok1 || !ok2 {
+				bad(caseLine, "a file of the archive is missing after untar: "+f, "")
+				continue
+			}
+			if root {
+				if v.owner && (su != du || sg != dg) {
+					bad(caseLine, fmt.Sprintf("untar without --no-same-owner: %s has owner %d:%d, the archive says %d:%d", f, du, dg, su, sg), "")
+				}
+				if !v.owner && (du != 0 || dg != 0) {
+					bad(caseLine, fmt.Sprintf("untar --no-same-owner: %s has owner %d:%d, not the current user's", f, du, dg), "")
+				}
+			}
+			// with the owner applied chown clears set-id bits before chmod puts them back; compare the permission bits
+			if v.mode && sm&0o777 != dm&0o777 {
+				bad(caseLine, fmt.Sprintf("untar without --no-same-permissions: %s has mode %o, the archive says %o", f, dm&0o7777, sm&0o7777), "")
+			}
+			if !v.mode && dm&0o7777 == sm&0o7777 {
+				bad(caseLine, fmt.Sprintf("untar --no-same-permissions: %s has the archive's mode %o (expected the creation default)", f, dm&0o7777), "")
+			}
+		}
+	}
+	// output formats
+	tarOut := work + "/out.tar"
+	if r := run("untar", "--output-format", "gnu-tar", catar, tarOut); r.exit != 0 {
+		bad("cli.glue untar --output-format gnu-tar", "failed", r.stderr)
+	} else if b, _ := os.ReadFile(tarOut); len(b) < 1024 || len(b)%512 != 0 {
+		bad("cli.glue untar --output-format gnu-tar", fmt.Sprintf("the tar file has %d bytes", len(b)), "")
+	} else {
+		r2 := run("untar", "--output-format", "gnu-tar", catar, "-")
+		if r2.exit != 0 || r2.stdout != string(b) {
+			bad("cli.glue untar --output-format gnu-tar -", "the archive on stdout differs from the one written to a file", "")
+		}
+		if r3 := run("tar", "--input-format", "tar", work+"/y.catar", tarOut); r3.exit != 0 {
+			bad("cli.glue tar --input-format tar", "failed on the tar file untar wrote", r3.stderr)
+		}
+		if r4 := runCLI(bin, env, b, 60*time.Second, "tar", "--input-format", "tar", work+"/z.catar", "-"); r4.exit != 0 {
+			bad("cli.glue tar --input-format tar -", "failed on stdin", r4.stderr)
+		} else {
+			y, _ := os.ReadFile(work + "/y.catar")
+			z, _ := os.ReadFile(work + "/z.catar")
+			if !bytes.Equal(y, z) || len(y) == 0 {
+				bad("cli.glue tar --input-format tar -", "the archive made from stdin differs from the one made from the file", "")
+			}
+		}
+	}
+	rep.Count("cli.glue formats", true, "cli.glue", "cli.glue:formats")
+	if r := run("untar", "--output-format", "bogus", catar, work+"/nowhere"); r.exit == 0 || !strings.Contains(r.stderr, "invalid output format") {
+		bad("cli.glue untar --output-format bogus", "not refused", r.stderr)
+	}
+	if r := run("tar", "--input-format", "bogus", work+"/n.catar", src); r.exit == 0 || !strings.Contains(r.stderr, "invalid input format") {
+		bad("cli.glue tar --input-format bogus", "not refused", r.stderr)
+	}
+	if r := run("tar", "--tar-add-root", work+"/n.catar", src); r.exit == 0 {
+		bad("cli.glue tar --tar-add-root (disk input)", "not refused", r.stderr)
+	}
+	if r := run("untar", "-i", catar, work+"/nowhere"); r.exit == 0 {
+		bad("cli.glue untar -i without a store", "not refused", r.stderr)
+	}
+	// tar to stdout = tar to a file
+	if r := run("tar", "-", src); r.exit != 0 {
+		bad("cli.glue tar -", "failed", r.stderr)
+	} else if b, _ := os.ReadFile(catar); r.stdout != string(b) {
+		bad("cli.glue tar -", "the archive on stdout differs from the one written to a file", "")
+	}
+	// desync mtree: catar input against the in-process writer on the same archive, directory input against both
+	ar, _ := os.ReadFile(catar)
+	for _, dg := range []string{"sha512-256", "sha256"} {
+		restore := mtreeSetDigest(dg)
+		var buf bytes.Buffer
+		fs, _ := desync.NewMtreeFS(&buf)
+		err := desync.UnTar(context.Background(), bytes.NewReader(ar), fs)
+		restore()
+		if err != nil {
+			bad("cli.glue mtree", "in-process UnTar into MtreeFS failed: "+err.Error(), "")
+			continue
+		}
+		args := []string{"mtree"}
+		if dg == "sha256" {
+			args = append(args, "--digest", "sha256")
+		}
+		r1 := run(append(args, catar)...)
+		r2 := run(append(args, src)...)
+		rep.Count("cli.glue mtree "+dg, true, "cli.glue", "cli.glue:mtree")
+		if r1.exit != 0 || r1.stdout != buf.String() {
+			bad("cli.glue mtree <catar> digest="+dg, "the output differs from UnTar into MtreeFS on the same archive", r1.stdout+r1.stderr)
+		}
+		if r2.exit != 0 || r2.stdout != buf.String() {
+			bad("cli.glue mtree <dir> digest="+dg, "the output for the directory differs from the output for its archive", r2.stdout+r2.stderr)
+		}
+		// every line of the real output is read back by the model's reader: type and name per line
+		if lines := strings.Split(strings.TrimSuffix(buf.String(), "\n"), "\n"); len(lines) < 5 {
+			bad("cli.glue mtree", "fewer lines than nodes", buf.String())
+		}
 	}
 }
